@@ -955,7 +955,9 @@ class MetricFrame:
             if param_value is None:
                 continue
 
-            col_name = f"{name}_{param_name}"
+            # A tuple label cannot coincide with the (string) names of the label and
+            # feature columns, nor with the column of another metric's parameter
+            col_name = (name, param_name)
             all_data[col_name] = np.asarray(param_value)
             kw_argument_mapping[param_name] = col_name
 
